@@ -403,6 +403,119 @@ def check_trunc_case(ctx, case):
                       {"case": _ser(case), "finding_key": "occupation-out-of-range-under-truncation"})
 
 
+# ---- small max_bond_dim that does NOT bind on the state: <H^2> and the variance stay exact ------------------------
+# max_bond_dim caps the STATE.  When the state's own bond dimension stays below the cap the evolution is the untruncated
+# one, so under a constant drive <H^2> and the variance must stay constant, and (sizes within dense reach) equal
+# <psi|H^2|psi> evaluated densely on the stored state.  (The H^2 operator of a chain of 8 needs bond dimension 13, of a
+# 4x4 lattice 41: it must not be compressed with the state's cap.)
+CAP_SPREAD = 5e-3       # relative spread of <H^2> / variance over the run; calibrated: unchanged tree <= see calibration
+CAP_DENSE = 1e-5        # |<H^2>_reported - <psi|H^2|psi>_dense| / scale^2 ; calibrated likewise
+
+
+def gen_cap_case(rng, tier_thorough):
+    shape = rng.choice(["chain", "chain", "lattice"])
+    if shape == "chain":
+        n = rng.choice([8, 10, 12, 16] if tier_thorough else [8, 10, 12])
+        pos = np.array([[float(i), 0.0] for i in range(n)])
+    else:
+        side = rng.choice([3, 4] if tier_thorough else [3, 3, 4])
+        n = side * side
+        pos = np.array([[float(i % side), float(i // side)] for i in range(n)])
+    u0 = rng.choice([5.0, 10.0, 20.0])
+    d = np.linalg.norm(pos[:, None] - pos[None], axis=-1) + np.eye(n)
+    steps = rng.randint(3, 6)
+    dt = rng.choice([5.0, 10.0, 20.0])
+    om = np.full(n, rng.uniform(2.0, 7.0))
+    de = np.full(n, rng.uniform(-4.0, 4.0))
+    prob = dict(n=n, steps=steps, xy=False, U=(u0 / d ** 6) * (1 - np.eye(n)), times=[k * dt for k in range(steps + 1)],
+                omega=np.array([om] * steps), delta=np.array([de] * steps), phi=np.zeros((steps, n)))
+    return {"prob": prob, "backend": "mps", "cap": True, "shape": shape, "tol": 1e-5, "windows": 1, "per": steps,
+            "cap_choice": rng.choice([0, 0, 0, 1, 2]), "seed": rng.randrange(2 ** 31)}
+
+
+def _mps_dense(state):
+    """contract an emu-mps MPS into a dense vector (site 0 most significant)"""
+    import torch
+    acc = state.factors[0].detach().cpu()
+    for f in state.factors[1:]:
+        acc = torch.tensordot(acc, f.detach().cpu(), dims=1)
+    return acc.reshape(-1).numpy()
+
+
+def check_cap_case(ctx, case):
+    import emu_mps
+    from pulser.backend import Energy, EnergySecondMoment, EnergyVariance, StateResult
+    from props.c01 import dense_H
+
+    prob = case["prob"]
+    n, times = prob["n"], prob["times"]
+    et = [t / times[-1] for t in times]
+
+    def run(cap):
+        with warnings.catch_warnings():
+            warnings.simplefilter("ignore")
+            kw = {} if cap is None else {"max_bond_dim": cap}
+            cfg = emu_mps.MPSConfig(observables=[StateResult(evaluation_times=et), Energy(evaluation_times=et),
+                                                 EnergySecondMoment(evaluation_times=et), EnergyVariance(evaluation_times=et)],
+                                    log_level=logging.CRITICAL, precision=case["tol"], optimize_qubit_ordering=False,
+                                    num_gpus_to_use=0, **kw)
+            return emu_mps.MPSBackend._run_from_sequence_data(D.to_sequence_data(prob), cfg)
+
+    try:
+        if "max_bond_dim" not in case:
+            # first pass with the default cap measures the bond dimension the state really needs
+            chi = max(run(None).get_result("state", t).get_max_bond_dim() for t in et)
+            if chi >= 16:
+                ctx.extra["cap_cases_skipped_entangled"] = ctx.extra.get("cap_cases_skipped_entangled", 0) + 1
+                return
+            case["max_bond_dim"] = [max(4, chi + 1), max(4, min(16, chi + 3)), 16][case["cap_choice"]]
+        res = run(case["max_bond_dim"])
+    except Exception as ex:  # noqa: BLE001
+        ctx.violation(f"emu-mps raised on a constant-drive noiseless input with a small max_bond_dim: {ex!r}",
+                      {"case": _ser(case), "finding_key": "conservation-raises"})
+        return
+    stored = res.get_result_times("state")
+    bond = max(res.get_result("state", t).get_max_bond_dim() for t in stored)
+    E = np.array([float(res.get_result("energy", t)) for t in stored])
+    E2 = np.array([float(res.get_result("energy_second_moment", t)) for t in stored])
+    V = np.array([float(res.get_result("energy_variance", t)) for t in stored])
+    scale = 1.0 + float(np.abs(prob["omega"][0]).sum() / 2 + np.abs(prob["delta"][0]).sum() + np.triu(np.abs(prob["U"]), 1).sum())
+    binding = bond >= case["max_bond_dim"]
+    ref2 = max(float(np.abs(E2).max()), 1.0)
+    spread = max(float(E2.max() - E2.min()), float(V.max() - V.min())) / ref2
+    dense_err = None
+    if n <= 10 and not binding:
+        H = dense_H(prob["omega"][0], prob["delta"][0], prob["phi"][0], prob["U"])
+        dense_err = 0.0
+        for k, t in enumerate(stored):
+            psi = _mps_dense(res.get_result("state", t))
+            hp = H @ psi
+            e, e2 = float(np.real(np.vdot(psi, hp))), float(np.real(np.vdot(hp, hp)))
+            dense_err = max(dense_err, abs(E[k] - e) / scale, abs(E2[k] - e2) / scale ** 2, abs(V[k] - (e2 - e * e)) / scale ** 2)
+    cal = ctx.extra.setdefault("calibration", {})
+    if not binding:
+        cal["mps-cap:relative spread of <H^2>/variance"] = max(cal.get("mps-cap:relative spread of <H^2>/variance", 0.0), spread)
+        if dense_err is not None:
+            cal["mps-cap:|reported - dense| / scale^2"] = max(cal.get("mps-cap:|reported - dense| / scale^2", 0.0), dense_err)
+    ctx.count_case({"kind": "cap", "shape": case["shape"], "n": n, "steps": prob["steps"], "max_bond_dim": case["max_bond_dim"],
+                    "state_bond": bond, "spread": spread, "dense_err": dense_err}, nontrivial=not binding)
+    hist = ctx.extra.setdefault("cap_distribution", {})
+    hk = f"{case['shape']}/n={n}/{'binding' if binding else 'not-binding'}"
+    hist[hk] = hist.get(hk, 0) + 1
+    if binding:
+        return     # the cap truncates the state: conservation is not asserted (see the truncation cases)
+    if spread > CAP_SPREAD:
+        ctx.violation(f"emu-mps: <H^2> / variance vary by {spread:.3g} (relative, > {CAP_SPREAD}) under a constant noiseless drive "
+                      f"with max_bond_dim={case['max_bond_dim']} although the state only needs bond dimension {bond}",
+                      {"case": _ser(case), "second_moment": E2.tolist(), "variance": V.tolist(),
+                       "finding_key": "second-moment-not-conserved-under-cap"})
+    if dense_err is not None and dense_err > CAP_DENSE:
+        ctx.violation(f"emu-mps: reported energy / <H^2> / variance differ from the dense contraction on the stored state by "
+                      f"{dense_err:.3g} (relative to scale^2, > {CAP_DENSE}) with max_bond_dim={case['max_bond_dim']} "
+                      f"(state bond dimension {bond})",
+                      {"case": _ser(case), "second_moment": E2.tolist(), "finding_key": "second-moment-wrong-under-cap"})
+
+
 def _ser(case):
     c = dict(case)
     c["prob"] = {k: (v.tolist() if hasattr(v, "tolist") else v) for k, v in case["prob"].items()}
@@ -427,13 +540,15 @@ def run(ctx):
     common.standard_proof_stage(ctx, "C28", ["Properties/C28.vo"])
     pin_stage(ctx)
     for c in corpus_cases():
-        (check_trunc_case if c.get("trunc") else check_switch_case if c.get("switch") else check_case)(ctx, c)
+        (check_cap_case if c.get("cap") else check_trunc_case if c.get("trunc") else check_switch_case if c.get("switch") else check_case)(ctx, c)
     for _ in range(ctx.n(30, 500)):
         check_case(ctx, gen_case(ctx.rng, ctx.thorough()))
     for _ in range(ctx.n(16, 300)):
         check_switch_case(ctx, gen_switch_case(ctx.rng, ctx.thorough()))
     for _ in range(ctx.n(10, 150)):
         check_trunc_case(ctx, gen_trunc_case(ctx.rng, ctx.thorough()))
+    for _ in range(ctx.n(8, 100)):
+        check_cap_case(ctx, gen_cap_case(ctx.rng, ctx.thorough()))
     cal = ctx.extra.get("calibration", {})
     ok = all(v <= 1e-10 for k, v in cal.items() if k.endswith("antihermiticity_defect"))
     ctx.obligation("correspondence:captured krylov_exp operators of real runs are anti-Hermitian (random-vector probe)",
@@ -448,7 +563,10 @@ def run(ctx):
                 "non-trivial = the run really has >= 2 matrix windows. Plus emu-mps runs with BINDING truncation (6-12 atom chains, "
                 "strong constant drive, max_bond_dim 1-4, precision 1e-2..1e-3): every stored state has |norm-1| <= 1e-9 and "
                 "every occupation lies in [0,1]; energy conservation is not asserted there (truncation changes <H>; the "
-                "drift is only recorded); non-trivial = the bond dimension cap is reached")
+                "drift is only recorded); non-trivial = the bond dimension cap is reached. Plus emu-mps runs with a SMALL max_bond_dim "
+                "(4..16) that does not bind on the state (chains of 8-16, 3x3 / 4x4 lattices, weakly entangling constant drive; "
+                "the cap is chosen above the bond dimension measured in a first pass): <H^2> and the variance constant over the "
+                "run and, up to 10 atoms, energy / <H^2> / variance equal to the dense contraction on the stored state")
     ctx.trusted_base += ["C06_H_hermitian / mpo_hermitian for the Hermiticity of the two Hamiltonians",
                          "source pin + random-vector probe tie the Coq lemmas' operator shapes to the code"]
     ctx.assumptions += [
@@ -465,7 +583,7 @@ def replay(ctx, path):
     rp = json.load(open(path))
     if "case" in rp:
         c = _deser(rp["case"])
-        (check_trunc_case if c.get("trunc") else check_switch_case if c.get("switch") else check_case)(ctx, c)
+        (check_cap_case if c.get("cap") else check_trunc_case if c.get("trunc") else check_switch_case if c.get("switch") else check_case)(ctx, c)
 
 
 META = {
